@@ -26,7 +26,10 @@ CONSTANTS Mods,        \* module names
           MaxNest,     \* user calls are offered inside callbacks up to this nesting depth
           Ops,         \* user actions offered at the top level
           CbOps,       \* user actions offered inside callbacks
-          EvalVals     \* values on_eval / on_start may return (subset of BOOLEAN)
+          EvalVals,    \* values on_eval / on_start may return (subset of BOOLEAN)
+          Senders,     \* modules that issue tell / publish / broadcast / pill in this configuration
+          QuitCodes,   \* codes passed to m_ctx_quit
+          Setup        \* "" = start from nothing; otherwise the name of a canned set-up the driver performs first (see InitOf)
 
 VARIABLE S
 vars == <<S>>
@@ -58,7 +61,14 @@ Init0 == [ctx |-> [st |-> "none", quit |-> FALSE, qcode |-> 0, fin |-> FALSE],
           cur |-> NoMod,
           ret |-> 0,
           pay |-> [p \in 1..MaxPay |-> [st |-> "unused", copies |-> 0, auto |-> FALSE]]]
-Init == S = Init0
+\* canned set-ups (the driver executes the same public calls before every program and checks it arrived here):
+\*  "loop2" / "loop3": context registered, all modules registered, first dispatch done (loop started, modules RUNNING)
+Running0 == [Mod0 EXCEPT !.st = "running", !.reg = TRUE]
+InitOf(x) == IF x = "" THEN Init0
+             ELSE [Init0 EXCEPT !.ctx = [st |-> "looping", quit |-> FALSE, qcode |-> 0, fin |-> FALSE],
+                                !.run = Cardinality(Mods),
+                                !.mod = [m \in Mods |-> Running0]]
+Init == S = InitOf(Setup)
 
 (* ------------------------------ message copies and payloads ------------------------------ *)
 \* a message copy in a mailbox / handed to a handler
@@ -192,11 +202,20 @@ Step(s) ==
             ELSE LET x == Head(f.b)
                      rest == Push(r, [f EXCEPT !.b = Tail(f.b)])
                      ms == r.mod[x].pipe
-                     s1 == [rest EXCEPT !.mod[x].pipe = <<>>]
+                     pills == {i \in 1..Len(ms) : ms[i].topic = "PILL"}
+                     k == IF pills = {} THEN 0 ELSE CHOOSE i \in pills : \A j \in pills : i <= j
+                     \* a pending poison pill: what was sent before it is delivered, then the module is stopped (the rest is dropped)
+                     head == IF k = 0 THEN ms ELSE SubSeq(ms, 1, k - 1)
+                     tail == IF k = 0 THEN <<>> ELSE SubSeq(ms, k + 1, Len(ms))
+                     s1 == [rest EXCEPT !.mod[x].pipe = tail]
+                     s2 == IF k = 0 THEN s1 ELSE Push(s1, Fr("pillstop", x, 0, 0))
                  IN IF x \notin Registered(r) \/ ms = <<>> THEN rest
                     ELSE IF r.mod[x].st = "running"
-                      THEN EnterCb(Push(s1, [Fr("evt2", x, 0, 0) EXCEPT !.ev = ms]), x, "evt", ms)
-                      ELSE [s1 EXCEPT !.pay = ReleaseAll(s1.pay, ms)]
+                      THEN IF head = <<>> THEN s2
+                           ELSE EnterCb(Push(s2, [Fr("evt2", x, 0, 0) EXCEPT !.ev = head]), x, "evt", head)
+                      ELSE [rest EXCEPT !.mod[x].pipe = <<>>, !.pay = ReleaseAll(rest.pay, ms)]
+      [] f.k = "pillstop" ->
+            IF r.mod[m].st = "running" THEN Push(r, Fr("stop", m, TRUE, 0)) ELSE r
       [] f.k = "lstop2" ->       \* quit code; a non-persistent context without modules is released now
             LET code == r.ctx.qcode IN
             IF Registered(r) = {} /\ ~CtxPersist THEN Ret(ReleaseCtx(r), code) ELSE Ret(r, code)
@@ -234,7 +253,7 @@ CtxRegister == /\ Can("CtxRegister")
 
 CtxDeregister == /\ Can("CtxDeregister")
                  /\ IF NoCtx \/ S.ctx.st # "idle" THEN Refuse(NEG)
-                    ELSE Do(Push(S, Fr("cdereg", NoMod, 0, RegSeq(S))))
+                    ELSE Do(Push([S EXCEPT !.ctx.fin = TRUE], Fr("cdereg", NoMod, 0, RegSeq(S))))   \* finalised first: nobody joins a context being torn down
 
 CtxFinalize == /\ Can("CtxFinalize")
                /\ IF NoCtx THEN Refuse(NEG) ELSE Do([S EXCEPT !.ctx.fin = TRUE, !.ret = 0])
@@ -258,8 +277,10 @@ Dispatch(b) == /\ Can("Dispatch") /\ AtTop
                   ELSE b \in Batches(S) /\ Do(Push(S, Fr("batch", NoMod, 0, b)))
 
 (* ------------------------------ module calls ------------------------------ *)
+\* (modelling bound) a name is not registered again while a call concerning its previous incarnation is still in progress
+NoFrames(m) == \A i \in 1..Len(S.stack) : S.stack[i].m # m
 ModRegister(m) ==
-    /\ Can("ModRegister")
+    /\ Can("ModRegister") /\ NoFrames(m)
     /\ IF NoCtx THEN Refuse(NEG)
        ELSE IF S.ctx.fin THEN Refuse(NEG)
        ELSE IF m \in Registered(S)
@@ -295,12 +316,12 @@ PubRefused(m) == ModRefused(m) \/ "DENYPUB" \in Flags[m]
 SubRefused(m) == ModRefused(m) \/ "DENYSUB" \in Flags[m]
 
 Tell(m, r, p, auto) ==
-    /\ Can("Tell") /\ Handle(m) /\ Handle(r) /\ FreePay(S) # {} /\ p = MinFree(S)
+    /\ Can("Tell") /\ m \in Senders /\ Handle(m) /\ Handle(r) /\ FreePay(S) # {} /\ p = MinFree(S)
     /\ IF PubRefused(m) \/ S.mod[r].old THEN Refuse(NEG)             \* (a module of another / released context cannot be addressed)
        ELSE Do(Ret(Send(S, IF Active(S, r) THEN <<r>> ELSE <<>>, p, auto, Msg(p, m, "", FALSE)), 0))
 
 Publish(m, t, p, auto) ==
-    /\ Can("Publish") /\ Handle(m) /\ FreePay(S) # {} /\ p = MinFree(S) /\ t \in Topics
+    /\ Can("Publish") /\ m \in Senders /\ Handle(m) /\ FreePay(S) # {} /\ p = MinFree(S) /\ t \in Topics
     /\ IF PubRefused(m) THEN Refuse(NEG)
        ELSE Do(Ret(Send(S, Subscribers(S, t), p, auto, Msg(p, m, t, FALSE)), 0))
 
@@ -308,12 +329,12 @@ Publish(m, t, p, auto) ==
 PublishSys(m) == /\ Can("PublishSys") /\ Handle(m) /\ Refuse(NEG)
 
 Broadcast(m, p, auto) ==
-    /\ Can("Broadcast") /\ Handle(m) /\ FreePay(S) # {} /\ p = MinFree(S)
+    /\ Can("Broadcast") /\ m \in Senders /\ Handle(m) /\ FreePay(S) # {} /\ p = MinFree(S)
     /\ IF PubRefused(m) THEN Refuse(NEG)
        ELSE Do(Ret(Send(S, AllActive(S), p, auto, Msg(p, m, "", FALSE)), 0))
 
 Pill(m, r) ==
-    /\ Can("Pill") /\ Handle(m) /\ Handle(r)
+    /\ Can("Pill") /\ m \in Senders /\ Handle(m) /\ Handle(r)
     /\ IF PubRefused(m) \/ S.mod[r].st # "running" THEN Refuse(NEG)
        ELSE Do(Ret(Deliver(S, <<r>>, Msg(0, m, "PILL", TRUE)), 0))
 
@@ -336,7 +357,7 @@ CbReturn(v) ==
        IN Do(IF r.stack # <<>> /\ Top(r).k \in {"start2", "eval2"} THEN [r EXCEPT !.stack[1].a = v] ELSE r)
 
 Next == \/ CtxRegister \/ CtxDeregister \/ CtxFinalize
-        \/ \E c \in {0, 1} : CtxQuit(c)
+        \/ \E c \in QuitCodes : CtxQuit(c)
         \/ \E b \in AllBatches : Dispatch(b)
         \/ \E m \in Mods : \/ ModRegister(m) \/ ModDeregister(m) \/ ModStart(m) \/ ModResume(m) \/ ModPause(m) \/ ModStop(m)
                            \/ DropRef(m) \/ PublishSys(m)
@@ -377,6 +398,8 @@ C02_CopyAccounting == \A p \in 1..MaxPay :
                          S.pay[p].copies = SumF(CopiesOf(p)[1], Mods) + SumF(CopiesOf(p)[2], 1..Len(S.stack))
 \* mailboxes exist only for RUNNING / PAUSED modules (stop and deregistration discard)
 C02_NoMailUnlessActive == \A m \in Mods : S.mod[m].pipe # <<>> => Active(S, m)
+\* state constraint for the pub/sub configuration: keep the population of registered-but-never-started modules small
+PsConstraint == TRUE
 TypeOK == /\ S.ctx.st \in {"none", "idle", "looping"}
           /\ \A m \in Mods : S.mod[m].st \in {"none", "idle", "running", "paused", "stopped", "zombie"}
           /\ S.run \in 0..(Cardinality(Mods) + 1)
